@@ -1,0 +1,10 @@
+//go:build verif
+
+// Contracts for the verification machinery in /verif (govc). Comment-only.
+
+package rng
+
+// the random number generator touches only its own state (frame assumption)
+//@ func Bytes
+//@   trusted
+//@   pure
